@@ -117,6 +117,7 @@ def main(argv=None):
     t_start = time.time()
     seed = int(os.environ.get("VERIF_SEED", "0") or 0)
     tier = args.tier if args.tier in ("quick", "thorough") else "quick"
+    os.environ["VERIF_TIER"] = tier          # contracts marked tier="thorough" are verified by the thorough tier only
     timeout = 10 if tier == "quick" else 60
     try:
         return run_property(prop, tier, seed, timeout, args, t_start)
@@ -398,6 +399,7 @@ def run_property(prop, tier, seed, timeout, args, t_start):
             "type_variants_excluded_by_preconditions": unreachable_variants,
             "bounded_standins": bounded,
             "not_decided": sum((pr.get("not_decided", []) for pr in plug_results), []) + plugins.NOT_DECIDED.get(prop, []),
+            "contracts_trusted_not_discharged": sorted(q for q, c in reg.contracts.items() if prop in c.props and c.trusted and not c.inline),
             "repo_source_digest": repo.source_digest(),
             "known_findings_hit": [k.get("obligation") for k, _ in known_hits],
             "extras": {pr.get("name", f"plugin{i}"): pr.get("extra") for i, pr in enumerate(plug_results) if pr.get("extra")},
